@@ -479,23 +479,46 @@ func ruleNegotiateAdmits(r *Run) {
 			continue
 		}
 		offers := fn.Params[1]
-		isOffer := func(v ssa.Value) bool {
-			u, ok := v.(*ssa.UnOp)
-			if !ok || u.Op != token.MUL {
-				return false
+		// a value seen inside a helper of the negotiator (matchMediaRange(spec.Value, offer)) stands for the
+		// argument of every call chain that leads there
+		atCallers := func(v ssa.Value) []ssa.Value {
+			par, ok := v.(*ssa.Parameter)
+			if !ok || par.Parent() == fn || !p.isTransparent(par.Parent()) {
+				return []ssa.Value{v}
 			}
-			ia, ok := u.X.(*ssa.IndexAddr)
-			return ok && ia.X == ssa.Value(offers)
+			var out []ssa.Value
+			for _, b := range p.bindings(par.Parent()) {
+				out = append(out, b.subst(v))
+			}
+			return out
+		}
+		isOffer := func(v ssa.Value) bool {
+			vs := atCallers(v)
+			for _, w := range vs {
+				u, ok := w.(*ssa.UnOp)
+				if !ok || u.Op != token.MUL {
+					return false
+				}
+				ia, ok := u.X.(*ssa.IndexAddr)
+				if !ok || ia.X != ssa.Value(offers) {
+					return false
+				}
+			}
+			return len(vs) > 0
 		}
 		isSpecValue := func(v ssa.Value) bool {
-			for _, o := range p.origins(v, originOpts{throughSlice: true, local: true}) {
-				if f, ok := o.(*ssa.Field); ok {
-					if st, ok := f.X.Type().Underlying().(*types.Struct); ok && st.Field(f.Field).Name() == "Value" {
-						return true
+			for _, o0 := range p.origins(v, originOpts{throughSlice: true, local: true}) {
+				for _, o := range atCallers(o0) {
+					for _, o2 := range p.origins(o, originOpts{throughSlice: true, local: true}) {
+						if f, ok := o2.(*ssa.Field); ok {
+							if st, ok := f.X.Type().Underlying().(*types.Struct); ok && st.Field(f.Field).Name() == "Value" {
+								return true
+							}
+						}
+						if lf := loadedField(o2); lf != nil && lf.Name() == "Value" {
+							return true
+						}
 					}
-				}
-				if lf := loadedField(o); lf != nil && lf.Name() == "Value" {
-					return true
 				}
 			}
 			return false
